@@ -155,6 +155,9 @@ def rule_r2(prog, res) -> None:
         for c in calls_in(fi):
             if fb in prog.resolve_call(fi, c).funcs() and c.args:
                 a0 = c.args[0]
+                if isinstance(a0, ast.Name):  # header = f.read(1); from_bytes(header)
+                    vs_ = [v for v in all_def_values(fi.node, a0.id) if v is not None]
+                    a0 = vs_[0] if len(vs_) == 1 else a0
                 if isinstance(a0, ast.Call) and isinstance(a0.func, ast.Attribute) and a0.func.attr == "read":
                     n_rd += 1
                     res.touch(fi)
@@ -163,8 +166,8 @@ def rule_r2(prog, res) -> None:
                         res.ok("C02.R2", res.site(fi, "header read"), "the reader takes the one header byte")
                     else:
                         res.violation("C02.R2", fi, c, f"the patch header is decoded from `{unparse(a0)}`, not from exactly the one byte that is written: with no byte read every flag decodes as False (weights and redshifts of the patch are ignored, the record layout is misread), with more the data section is eaten into", key_extra="header-read-size")
-    if n_rd < 2:
-        raise AnalysisError(f"C02.R2: only {n_rd} header reads (from_bytes(f.read(1))) found, minimum 2")
+    if n_rd < 1:
+        raise AnalysisError(f"C02.R2: only {n_rd} header reads (from_bytes(f.read(1))) found, minimum 1")
     # what the reader announces is what it delivers: DataChunkInfo(has_X=…) of a column reader is true exactly when a
     # column name for X was given
     n_ci = 0
